@@ -271,7 +271,7 @@ func cmdCheck(args []string) int {
 	opts.CrossKind = *cross
 	// fail fast: on a tree that breaks the property the first candidates decide the verdict; exploring on
 	// only multiplies them (GOSYM_ALLVIOL=1 explores everything)
-	if os.Getenv("GOSYM_ALLVIOL") == "" {
+	if os.Getenv("GOSYM_ALLVIOL") == "" && *tier != "thorough" {
 		opts.StopAfterViol = 40
 	}
 	if opts.MaxSteps == 0 {
